@@ -249,8 +249,12 @@ func c17Tree(p vbase.Params, r *vbase.Result) {
 		}
 		r.Obs("trees_built", int64(len(pos)))
 	}
+	maxExh := 6
+	if p.Thorough() {
+		maxExh = 8 // 40320 permutations per branch factor
+	}
 	for bf := 2; bf <= 6; bf++ {
-		for n := 1; n <= 6; n++ {
+		for n := 1; n <= maxExh; n++ {
 			pos := IDs(n)
 			var perm func(k int)
 			perm = func(k int) {
@@ -270,7 +274,7 @@ func c17Tree(p vbase.Params, r *vbase.Result) {
 	r.Exhaustive = true
 	per := 80
 	if p.Thorough() {
-		per = 3000
+		per = 20000
 	}
 	for bf := 2; bf <= 6; bf++ {
 		for n := 7; n <= 40; n++ {
